@@ -94,7 +94,8 @@ def warm(s):
     if not isinstance(s, Schema):
         return s
     from d42 import fake, represent, validate
-    for op in (lambda: repr(s), lambda: represent(s), lambda: s == s, lambda: hash(s)):
+    for op in (lambda: represent(s, indent=2), lambda: repr(s), lambda: represent(s), lambda: s == s,
+               lambda: hash(s)):
         try:
             op()
         except Exception:  # noqa: BLE001 - warming never judges
